@@ -16,7 +16,8 @@ for pid in ids:
                 continue
             req[(part.name, k)] = v
     env = dict(os.environ, VERIF_SEED=seed, VERIF_NO_EVIDENCE="1", VERIF_VERBOSE="1")
-    out = subprocess.run(["/verif/check", pid, "quick"], env=env, capture_output=True, text=True, cwd="/verif").stdout
+    proc = subprocess.run(["/verif/check", pid, "quick"], env=env, capture_output=True, text=True, cwd="/verif")
+    out = proc.stdout
     counts = {}
     for line in out.splitlines():
         m = re.match(r"^\s+([^:]+):(.*): (\d+)$", line)
@@ -29,4 +30,4 @@ for pid in ids:
         got = counts.get((pn, k), 0)
         if got < 2.5 * v:
             worst.append((round(got / v, 2), pn, k, got, v))
-    print(pid, "seed", seed, "tight:", sorted(worst)[:12], flush=True)
+    print(pid, "seed", seed, "exit", proc.returncode, "tight:", sorted(worst)[:12], flush=True)
